@@ -62,3 +62,33 @@ func TestSmoke(t *testing.T) {
 		t.Fatalf("loc-rib keeps %d paths", n)
 	}
 }
+
+// The active side: bio-rd connects, the harness stands in for the TCP connector.
+func TestActive(t *testing.T) {
+	srv := NewServer(ServerConfig{})
+	p, err := srv.AddPeer(PeerConfig{LocalAS: 65000, PeerAS: 65001, IPv4: &Family{}, Active: true})
+	if err != nil {
+		t.Fatal(err)
+	}
+	s0 := &Session{P: p, FSMIndex: 0}
+	if st := s0.State(); st != "idle" {
+		t.Fatalf("state %q", st)
+	}
+	if err := s0.Event(1 /* ManualStart */, StepTimeout); err != nil {
+		t.Fatal(err)
+	}
+	s, err := p.DeliverOutgoing()
+	if err != nil {
+		t.Fatal(err)
+	}
+	if err := s.Establish(p.DefaultOpen()); err != nil {
+		t.Fatal(err)
+	}
+	if !s.Established() {
+		t.Fatal("not established")
+	}
+	s.SendNotification(6, 0)
+	if r := s.Sync(); !r.Closed {
+		t.Fatalf("%v", r)
+	}
+}
